@@ -693,3 +693,23 @@ Proof. intros l acts ND. exact (I_g3 _ (net_run_inv acts _ (net_init_inv l ND)))
 Example election_happens :
   led (net_run (net_init [0; 1; 2]) [ATimeout 0; ADeliver 1%nat; ADeliver 1%nat]) = [(1, 0)].
 Proof. vm_compute. reflexivity. Qed.
+
+(** One handler invocation, any input: the term never decreases and the vote
+    of an unchanged term is kept (the property the repair dce5f0f restored). *)
+Theorem term_monotone_vote_stable n inp :
+  term n <= term (fst (node_step n inp)) /\
+  (term (fst (node_step n inp)) = term n -> forall c, voted n = Some c -> voted (fst (node_step n inp)) = Some c).
+Proof. destruct (node_step_spec n inp) as ((_ & _ & A & B) & _). split; assumption. Qed.
+
+(** Every leader there has ever been held, in its term, the votes of a
+    duplicate-free set of more than half of the nodes. *)
+Theorem leader_has_quorum_of_votes : forall l acts, NoDup l ->
+  let w := net_run (net_init l) acts in
+  forall t a, In (t, a) (led w) ->
+  exists vs, NoDup vs /\ zlen l / 2 + 1 <= zlen vs /\ forall v, In v vs -> In (v, t, a) (cast w).
+Proof.
+  intros l acts ND w t a H.
+  assert (W : net_inv w) by (apply net_run_inv, net_init_inv, ND).
+  destruct (I_l1 w W _ _ H) as (vs & A & B & C). exists vs. repeat split; auto.
+  unfold nquorum in B. unfold w in B. rewrite net_run_ids in B. exact B.
+Qed.
